@@ -373,6 +373,15 @@ def check_pipeline(ctx, report, case, pipe, label):
                     report.hit("stored_interval")
     if last_disp is not None:
         name, snap = last_disp
+        # the other half of the invariant the tail keeps (`runSteps_inv`): never both bit 8 and bit 9, also at the end
+        inv = ctx.lean.call("C09.hyp", rows=rows, cols=cols, disp=enc_map(snap["map"]),
+                            mask=[[int(v) for v in row] for row in snap["mask"]], lo=int(gmin), hi=int(gmax))
+        if not inv["one_flag"]:
+            report.fail("hyp_never_both_bits_8_9", "final_map_after_" + name.split(".")[0], payload,
+                        {"step": name, "bad": inv["bad_one_flag"]},
+                        f"the final map has pixels flagged both occlusion and mismatch: {json.dumps(inv['bad_one_flag'][:1])}")
+        else:
+            report.hit("hyp_never_both_bits_8_9")
         valid = [[(int(snap["mask"][r][c]) & INVALID_BITS) == 0 for c in range(cols)] for r in range(rows)]
         pl = G.payload(case, "left")
         pl.update({"disp": enc_map(snap["map"]), "valid_px": valid, "mode": "global"})
